@@ -866,3 +866,79 @@ func (e *Env) MarksPresent(ctx sdk.Context, ms []M) []string {
 }
 
 func StrListCoq(xs []string) string { return strList(xs) }
+
+// ---------------------------------------------------------------- coin sets
+
+// CoinSet: 1..3 coins mixing native / foreign / frozen-prone denominations (the set `must`, when
+// given, is always part of it).  The native amount is steered to limit-1 / limit / limit+1.
+// Mostly canonical (sorted, distinct); sometimes left reversed or with a duplicated denomination
+// (Msg.ValidateBasic must refuse those).
+func CoinSet(r *hx.Rng, limit uint64, must string) sdk.Coins {
+	n := 1
+	switch x := r.Intn(100); {
+	case x >= 80:
+		n = 3
+	case x >= 45:
+		n = 2
+	}
+	chosen := map[string]bool{}
+	if must != "" {
+		chosen[must] = true
+	}
+	for len(chosen) < n {
+		chosen[Denoms[r.Intn(len(Denoms))]] = true
+	}
+	var ds []string
+	for d := range chosen {
+		ds = append(ds, d)
+	}
+	sort.Strings(ds)
+	var cs sdk.Coins
+	for _, d := range ds {
+		amt := int64(1 + r.Intn(2000))
+		if d == "ukex" && r.Chance(70) {
+			amt = int64(limit) + int64(r.Intn(3)) - 1
+			if amt <= 0 {
+				amt = 1
+			}
+		}
+		cs = append(cs, sdk.NewInt64Coin(d, amt))
+	}
+	switch x := r.Intn(100); {
+	case x < 5 && len(cs) > 1: // reversed: not canonical
+		for i, j := 0, len(cs)-1; i < j; i, j = i+1, j-1 {
+			cs[i], cs[j] = cs[j], cs[i]
+		}
+	case x < 8: // duplicated denomination
+		cs = append(cs, cs[len(cs)-1])
+	}
+	return cs
+}
+
+// SplitOutputs distributes a canonical coin set over 1..3 recipients (every output non-empty, the
+// outputs sum to the input); a non-canonical set goes to one recipient unchanged.
+func SplitOutputs(r *hx.Rng, cs sdk.Coins, people []string) []Out {
+	if !cs.IsValid() {
+		return []Out{{To: people[r.Intn(len(people))], Amt: cs}}
+	}
+	k := 1 + r.Intn(3)
+	outs := make([]sdk.Coins, k)
+	for _, c := range cs {
+		i := r.Intn(k)
+		if c.Amount.GT(sdk.OneInt()) && k > 1 && r.Bool() {
+			h := c.Amount.QuoRaw(2)
+			j := (i + 1) % k
+			outs[i] = outs[i].Add(sdk.NewCoin(c.Denom, h))
+			outs[j] = outs[j].Add(sdk.NewCoin(c.Denom, c.Amount.Sub(h)))
+		} else {
+			outs[i] = outs[i].Add(c)
+		}
+	}
+	var res []Out
+	for _, o := range outs {
+		if !o.IsZero() {
+			res = append(res, Out{To: people[r.Intn(len(people))], Amt: o})
+		}
+	}
+	return res
+}
